@@ -1150,3 +1150,75 @@ def kind_of_current_node(check: Check, repo: Repo, rule: str = "KIND-CURRENT") -
         check.ob(rule, c, node_text(c, 70), ok, why)
     if n < 2:
         raise AnalysisError("visit(): kind dispatch sites not found")
+
+
+# -- the fixed-width escape reader accepts what the printer emits -----------------------------------
+
+ESC_ACCEPT = (0x0, 0x1, 0x8, 0xB, 0x1F, 0x7F, 0x9F, 0xFF, 0xD7FF, 0xE000, 0xFFFD, 0xFFFF)
+ESC_REJECT = (-1, 0xD800, 0xDBFF, 0xDC00, 0xDFFF)
+
+
+def escape_range(check: Check, repo: Repo, rule: str = "ESCAPE-RANGE") -> None:
+    check.rule(
+        rule,
+        "Lexer.read_escaped_unicode_fixed_width, folded for boundary values of the 16-bit code it has read "
+        "(the statements after `code = read_16_bit_hex_code(...)` are evaluated with `code` bound to a "
+        "constant, nothing of the lexer is run): every Unicode scalar value up to U+FFFF - including U+0000, "
+        "which print_string writes as \\u0000 - is returned as one escape of width 6 holding chr(code); a "
+        "lone surrogate and the invalid-hex marker -1 are not",
+    )
+    fn = repo.func("language.lexer", "Lexer.read_escaped_unicode_fixed_width")
+    mod = repo.mod("language.lexer")
+    idx = next((i for i, s in enumerate(fn.body) if isinstance(s, ast.Assign) and isinstance(s.targets[0], ast.Name)
+                and s.targets[0].id == "code" and isinstance(s.value, ast.Call) and call_name(s.value) == "read_16_bit_hex_code"), None)
+    if idx is None:
+        raise AnalysisError("read_escaped_unicode_fixed_width: `code = read_16_bit_hex_code(...)` not found")
+    rest = fn.body[idx + 1:]
+
+    def fold(k: int):
+        ev = Evaluator(repo, mod, {"code": k, "EscapeSequence": lambda v, size: ("ESC", v, size)})
+        try:
+            r = ev._exec_block(rest)
+        except NotStatic as e:
+            return ("OTHER", str(e))
+        return r
+
+    for k in ESC_ACCEPT:
+        r = fold(k)
+        ok = r == ("ESC", chr(k), 6)
+        check.ob(rule, fn, f"\\u{k:04X} is read as one escape", ok,
+                 "EscapeSequence(chr(code), 6)" if ok else f"folds to {r!r}: the text print_string emits for U+{k:04X} is rejected or read differently")
+    for k in ESC_REJECT:
+        r = fold(k)
+        ok = not (isinstance(r, tuple) and r and r[0] == "ESC")
+        check.ob(rule, fn, f"code {k if k < 0 else hex(k)} alone is not an escape", ok,
+                 "not accepted by the single-escape arm" if ok else f"folds to {r!r}: a lone surrogate / invalid hex is accepted")
+
+
+def block_flag(check: Check, repo: Repo, rule: str = "BLOCK-FLAG") -> None:
+    check.rule(
+        rule,
+        "PrintAstVisitor.leave_string_value chooses between print_block_string and print_string by "
+        "`node.block` alone: the parser sets block from the delimiters it saw, so a printer that prints "
+        "some block strings quoted (because of their content) yields text that parses to a node with "
+        "block=False - a structurally different tree",
+    )
+    fn = repo.func("language.printer", "PrintAstVisitor.leave_string_value")
+    calls = [c for c in walk_body(fn) if isinstance(c, ast.Call) and call_name(c) == "print_block_string"]
+    if not calls:
+        check.ob(rule, fn, "leave_string_value prints block strings with print_block_string", False, "print_block_string is never called")
+        return
+    for c in calls:
+        sel = next((a for a in [parent(c), *[x for x in _anc(c)]] if isinstance(a, (ast.If, ast.IfExp))), None)
+        test = sel.test if sel is not None else None
+        atoms = set()
+        if test is not None:
+            for x in ast.walk(test):
+                if isinstance(x, ast.Attribute):
+                    atoms.add(unparse(x))
+                elif isinstance(x, ast.Name) and not isinstance(parent(x), ast.Attribute):
+                    atoms.add(x.id)
+        pname = fn.args.args[0].arg
+        ok = test is not None and atoms == {f"{pname}.block"}
+        check.ob(rule, c, "print_block_string selected by node.block only", ok,
+                 f"test `{unparse(test)}`" if ok else f"selection depends on {sorted(atoms)} (test `{unparse(test) if test is not None else 'none'}`)")
